@@ -7,5 +7,8 @@ func LTSSubjects(variant string) map[string]lts.Subject {
 	return map[string]lts.Subject{
 		"xlist": XList{},
 		"deque": Deque{},
+		"heap":  Heap{Cmp: variant == "cmp"},
+		"pq3":   PQ{Cmp: variant == "cmp", K: 3},
+		"pq4":   PQ{Cmp: variant == "cmp", K: 4},
 	}
 }
